@@ -118,3 +118,27 @@ fn k_tex_truncated_bc1_nopanic() {
     if let Some(t) = Texture::from_existing(&buf) { core::mem::forget(t); }
     kani::cover!(true, "reachable");
 }
+
+//@unit props=C13 label=S tier=parked fn=tex::Texture::from_existing bound="B8G8R8A8, 2x1x1, fully concrete 80-byte header (2D), 8 symbolic payload bytes" stubs=fmt::format
+//@desc probe: concrete header, symbolic payload
+#[kani::proof]
+#[kani::unwind(17)]
+#[kani::stub(alloc::fmt::format, stub_fmt)]
+fn k_tex_bgra_2x1_concrete_header() {
+    let payload: [u8; 8] = kani::any();
+    let mut buf = [0u8; 88];
+    buf[..80].copy_from_slice(&tex_header(0x800000, 0x1450, 2, 1, 1));
+    buf[80..].copy_from_slice(&payload);
+    match Texture::from_existing(&buf) {
+        Some(t) => {
+            assert!(t.width == 2 && t.height == 1 && t.depth == 1, "dimensions copied from the header");
+            assert!(t.rgba.len() == 8, "width*height*depth*4 bytes");
+            let i: usize = kani::any();
+            kani::assume(i < 2);
+            assert!(t.rgba[4 * i] == payload[4 * i + 2] && t.rgba[4 * i + 1] == payload[4 * i + 1] && t.rgba[4 * i + 2] == payload[4 * i] && t.rgba[4 * i + 3] == payload[4 * i + 3], "BGRA reordered to RGBA");
+            core::mem::forget(t);
+        }
+        None => assert!(false, "a well-formed B8G8R8A8 texture parses"),
+    }
+    kani::cover!(true, "reachable");
+}
